@@ -146,6 +146,16 @@ func history(g *hx.Gen, steps int) {
 	}
 	for s := 0; s < steps; s++ {
 		c := r.Intn(100)
+		if c >= 97 && len(active.Blocks) >= 3 { // node restart: chain.Init + index catch-up from the stored chain
+			g.Emit("restart")
+			h.Observe(false, 40)
+			// side branches are memory only: the generator forgets them as the node does
+			for k := range byTip {
+				delete(byTip, k)
+			}
+			byTip[hexOf(sim.BranchTip(active))] = active
+			continue
+		}
 		switch {
 		case c < 6 && len(active.Blocks) >= 3: // a non-zero and a zero-value output of one address, spent together
 			if pair := h.ZeroValuePair(active); pair != nil {
